@@ -93,6 +93,7 @@ class CFG:
         self.may_raise = may_raise or default_may_raise
         self.exc_classes = exc_classes or {}   # project exception class -> base names
         self.nodes: list[Node] = []
+        self.escaping = {}     # node id -> exception class names that reach the exceptional exit from that node ('*' = any)
         self.entry = self._new("entry")
         self.exit = self._new("exit")
         self.raise_exit = self._new("raise")
@@ -126,10 +127,17 @@ class CFG:
             if stop:
                 return
         self._edge(node, self.raise_exit, "exc")
+        self.escaping.setdefault(node.id, set()).add(raised or "*")
 
     def _maybe_raise(self, node, expr, ctx):
-        if expr is not None and self.may_raise(expr):
+        if expr is None:
+            return
+        r = self.may_raise(expr)
+        if r is True:
             self._raise_from(node, ctx)
+        elif r:
+            for cls in sorted(r):
+                self._raise_from(node, ctx, None if cls == "*" else cls)
 
     def _block(self, stmts, preds, ctx):
         for st in stmts:
@@ -165,7 +173,7 @@ class CFG:
         if isinstance(st, ast.For):
             h = self._new("for", st.iter, st)
             self._link(preds, h)
-            self._raise_from(h, ctx) if self.may_raise(st.iter) else None
+            self._maybe_raise(h, st.iter, ctx)
             loop = {"head": h, "breaks": []}
             ctx.loops.append(loop)
             ends = self._block(st.body, [(h, "T")], ctx)
@@ -179,7 +187,8 @@ class CFG:
         if isinstance(st, ast.With):
             w = self._new("with", st.items[0].context_expr if len(st.items) == 1 else st, st)
             self._link(preds, w)
-            self._raise_from(w, ctx)
+            for it_ in st.items:
+                self._maybe_raise(w, it_.context_expr, ctx)
             ends = self._block(st.body, [(w, "next")], ctx)
             x = self._new("withexit", None, st)
             self._link(ends, x)
@@ -232,8 +241,7 @@ class CFG:
         # simple statement
         n = self._new("stmt", st, st)
         self._link(preds, n)
-        if self.may_raise(st):
-            self._raise_from(n, ctx)
+        self._maybe_raise(n, st, ctx)
         return [(n, "next")]
 
     def _try(self, st: ast.Try, preds, ctx):
